@@ -538,7 +538,29 @@ impl ToPrimitive for LazyBigint {
     fn to_f64(&self) -> Option<f64> {
         match self {
             Self::Short(s) => s.to_f64(),
-            Self::Long(b) => b.to_f64(),
+            Self::Long(b) => {
+                // round to nearest once: keep the 64 leading bits and fold everything below them
+                // into a sticky bit (converting the truncated leading bits alone rounds twice)
+                let bits = b.bits();
+                if bits <= 64 {
+                    return b.to_f64();
+                }
+                let shift = bits - 64;
+                if shift > 1100 {
+                    return Some(if b.is_negative() {
+                        f64::NEG_INFINITY
+                    } else {
+                        f64::INFINITY
+                    });
+                }
+                let mag = b.magnitude();
+                let mut top = (mag >> shift).to_u64()?;
+                if mag.trailing_zeros().map_or(false, |tz| tz < shift) {
+                    top |= 1;
+                }
+                let ret = (top as f64) * 2.0f64.powi(shift as i32);
+                Some(if b.is_negative() { -ret } else { ret })
+            }
         }
     }
 }
